@@ -27,7 +27,6 @@ tvars == <<pop, foreign, it, l, bad>>
 
 TInit == pop = {} /\ foreign = {} /\ it = NoIter /\ l = 1 /\ bad = FALSE
 
-ToSet(s) == {s[i] : i \in 1..Len(s)}
 
 \* what the specification would have answered (reference page), for the report
 Expected ==
